@@ -284,7 +284,8 @@ def _pinned_child_shape_exceptions():
     import json, os
     p = os.path.join(os.path.dirname(__file__), 'C09_child_shape_pinned.json')
     try:
-        return set(json.load(open(p))['delimiter_not_a_direct_child'])
+        # keyword case does not matter for the shape: the pinned inputs are compared case-insensitively
+        return set(x.lower() for x in json.load(open(p))['delimiter_not_a_direct_child'])
     except Exception:
         return None
 
@@ -307,7 +308,7 @@ def child_shape_sweep(ctx):
             ctx.fail('parse raised ' + type(e).__name__, s, observed=repr(e), required='tree')
             continue
         ctx.evaluations += 1
-        if not all(child_shape_ok(st) for st in stmts) and s not in pinned:
+        if not all(child_shape_ok(st) for st in stmts) and s.lower() not in pinned:
             ctx.fail('a bracket/block group does not start with its opener token / end with its closer token as direct children', s,
                      observed='delimiter wrapped into a sub-group', required='opener first child, closer last child (as on the pinned tree)', sweep='child-shape')
     ctx.count('child-shape sweep inputs', n)
@@ -318,7 +319,7 @@ def replay(ctx, payload):
     if (payload.get('extra') or {}).get('sweep') == 'child-shape':
         pinned = _pinned_child_shape_exceptions() or set()
         s = payload['input']
-        if s not in pinned and not all(child_shape_ok(st) for st in sqlparse.parse(s)):
+        if s.lower() not in pinned and not all(child_shape_ok(st) for st in sqlparse.parse(s)):
             ctx.fail('a bracket/block group does not start with its opener token / end with its closer token as direct children', s,
                      observed='delimiter wrapped into a sub-group', required='opener first child, closer last child (as on the pinned tree)', sweep='child-shape')
         return len(ctx.failures) > n0
